@@ -5,6 +5,7 @@ import (
 	"net/netip"
 
 	"github.com/AdguardTeam/AdGuardDNS/internal/agd"
+	"github.com/AdguardTeam/AdGuardDNS/internal/agdnet"
 	"github.com/AdguardTeam/AdGuardDNS/internal/optslog"
 	"github.com/miekg/dns"
 )
@@ -23,14 +24,19 @@ func (mw *Middleware) isBlockedByAccess(
 		optslog.Debug1(ctx, mw.logger, "access denied globally by ip", "remote_ip", ri.RemoteIP)
 
 		return true
-	} else if mw.accessManager.IsBlockedHost(ri.Host, ri.QType) {
+	}
+
+	// Don't use ri.Host, since it is empty for the root domain, and an empty
+	// hostname doesn't match any rule.
+	host := agdnet.NormalizeQueryDomain(req.Question[0].Name)
+	if mw.accessManager.IsBlockedHost(host, ri.QType) {
 		mw.metrics.IncrementAccessBlockedByHost(ctx)
 		optslog.Debug2(
 			ctx,
 			mw.logger,
 			"access denied globally by rule",
 			"remote_ip", ri.RemoteIP,
-			"host", ri.Host,
+			"host", host,
 		)
 
 		return true
